@@ -691,6 +691,8 @@ fn pin_malloc_threshold() {
 }
 
 pub fn main(args: &[String]) -> i32 {
+    // an allocation abort of the code under test would otherwise spend ~1 s symbolising a backtrace
+    std::env::set_var("RUST_BACKTRACE", "0");
     pin_malloc_threshold();
     match args.first().map(|s| s.as_str()) {
         Some("menu") => {
